@@ -584,3 +584,33 @@ def oracleC20 (o : Opts) (inN outN : Node) : Verdict :=
     if dcIn != dcPaired then .skip "call-inside-lowered-jsx" else .ok
 
 end VueJsx
+
+/-! ### C09: code that is not JSX is left exactly as written -/
+namespace VueJsx
+
+def isJsxNode (n : Node) : Bool :=
+  match n.kind with
+  | .jsxElement | .jsxFragment => true
+  | _ => false
+
+def hasDefineComponentCall (n : Node) : Bool :=
+  !(collect (fun x => match x with | .mk .call _ (.mk .ident ("defineComponent" :: _) _ :: _) => true | _ => false) n).isEmpty
+
+def oracleC09 (o : Opts) (env : Env) (inN outN : Node) : Verdict :=
+  let jsxFree := (collect isJsxNode inN).isEmpty
+  let dc := o.resolveType && hasDefineComponentCall inN
+  if jsxFree && !dc then
+    match firstDiff inN outN [] with
+    | none => .ok
+    | some (path, a, b) => .fail "jsx-free-module-changed" s!"at {path}: {showN a} became {showN b}"
+  else if dc then .skip "defineComponent-augmentation"
+  else
+    -- skeleton: outside the lowered JSX expressions (and the statements the transform inserted) nothing changes
+    let d := denote o env inN
+    let e := evalOut (effectivePragma o env) outN
+    let blank (n : Node) : Node := post (fun x => match x with | .mk (.other "vnode") _ _ => S "vnode" [] [] | x => x) n
+    match firstDiff (blank d) (blank e) [] with
+    | none => .ok
+    | some (path, a, b) => .fail "skeleton" s!"outside JSX, at {path}: {showN a} became {showN b}"
+
+end VueJsx
